@@ -87,6 +87,16 @@ type Named map[string]string
 
 type Z int
 
+// methods of A with value and pointer receivers, interleaved (r.R and s.S hold an A: generators ask about its methods)
+func (a *A) Reset()        {}
+func (a A) IsZero() bool   { return a.Name == "" }
+func (a *A) Grow(n int)    {}
+func (a A) Len() int       { return len(a.Tags) }
+func (a *A) Flush() error  { return nil }
+func (a A) String() string { return a.Name }
+func (a *A) Shrink()       {}
+func (a A) Kind() string   { return "a" }
+
 // Holder has a field of a generic type of another package, instantiated with a type of THIS package.
 type Holder struct {
 	B lib.Box[Sub]
@@ -278,6 +288,8 @@ func spec(dir string, entry []string, all bool, order []string) pipe.Spec {
 			// and renders the type of every field through snippet.ID (p.Holder and r.RH hold the same generic
 			// instantiation, seen from inside and from outside the package of its type argument)
 			gs.Default.FieldTypeIDs = true
+			// and asks the declaring packages for the methods of the field types
+			gs.Default.MethodsOfFieldTypes = true
 		}
 		if g == "g2" {
 			// a generator that registers deferred callbacks and imports per type
